@@ -459,11 +459,24 @@ func observe(name string, x *dt.Set[int], p proj, dom []int, free int, op string
 // ------------------------------------------------------------------ record
 
 // record runs n random concurrent scenarios on a synchronized set and prints one history per line:
-// {"hist":[events...]}.  Events: config / call / ret / final.
+// {"hist":[events...]}.  Events: config / call / ret / final.  The three callers proceed in rounds: each logs
+// its call, then all meet at a spin barrier and issue their calls at the same moment (the call event only
+// has to precede the call, so logging it before the barrier keeps the history sound and the calls tight).
 func record(n int, seed int64) {
 	rng := rand.New(rand.NewSource(seed))
+	mixOps := []string{"add", "addcheck", "addcheck", "addcheck", "delete", "deletecheck", "deletecheck", "deletecheck", "check", "len"}
+	duelOps := []string{"addcheck", "addcheck", "addcheck", "addcheck", "deletecheck", "deletecheck", "deletecheck", "deletecheck", "add", "delete"}
 	for i := 0; i < n; i++ {
+		// two kinds of scenario: "mix" (3 callers, all six operations, 1-3 values) and "duel" (3-5 callers
+		// fighting over ONE value with AddCheck/DeleteCheck only, always through the barrier, one P per caller):
+		// the latter is where a check-then-act that is not atomic shows as two callers both winning
+		duel := rng.Intn(2) == 0
+		callers, nvals, ops, barrier := 3, 1+rng.Intn(3), mixOps, rng.Intn(4) != 0
 		runtime.GOMAXPROCS(1 + rng.Intn(6))
+		if duel {
+			callers, nvals, ops, barrier = 3+rng.Intn(3), 1, duelOps, true
+			runtime.GOMAXPROCS(callers + 1)
+		}
 		rec := &rt.Recorder{}
 		s := &dt.Set[int]{}
 		ordered := rng.Intn(2)
@@ -477,26 +490,31 @@ func record(n int, seed int64) {
 		}
 		rec.Log(rt.Event{"ev": "config", "ordered": ordered})
 		var id atomic.Int64
+		var arrived atomic.Int64
 		var wg sync.WaitGroup
-		start := make(chan struct{})
-		for t := 0; t < 3; t++ {
+		rounds := 3 + rng.Intn(4)
+		for t := 0; t < callers; t++ {
 			r := rand.New(rand.NewSource(rng.Int63()))
 			tn := fmt.Sprintf("t%d", t)
 			wg.Add(1)
 			go func() {
 				defer wg.Done()
-				<-start
-				nops := 3 + r.Intn(4)
-				for j := 0; j < nops; j++ {
+				for j := 0; j < rounds; j++ {
 					k := id.Add(1)
-					v := 1 + r.Intn(3)
-					ops := []string{"add", "addcheck", "addcheck", "delete", "deletecheck", "deletecheck", "check", "len"}
+					v := 1 + r.Intn(nvals)
 					op := ops[r.Intn(len(ops))]
 					if op == "len" {
 						v = 0
 					}
 					rec.Log(rt.Event{"ev": "call", "t": tn, "id": k, "op": op, "arg": v})
-					if r.Intn(3) == 0 {
+					if barrier {
+						arrived.Add(1)
+						for spin := 0; arrived.Load() < int64(callers*(j+1)); spin++ {
+							if spin > 200 {
+								runtime.Gosched()
+							}
+						}
+					} else if r.Intn(3) == 0 {
 						runtime.Gosched()
 					}
 					res := "-"
@@ -514,14 +532,10 @@ func record(n int, seed int64) {
 					case "len":
 						res = strconv.Itoa(s.Len())
 					}
-					if r.Intn(3) == 0 {
-						runtime.Gosched()
-					}
 					rec.Log(rt.Event{"ev": "ret", "t": tn, "id": k, "res": res})
 				}
 			}()
 		}
-		close(start)
 		wg.Wait()
 		rec.Log(rt.Event{"ev": "final", "items": items(s), "n": s.Len()})
 		rt.Emit(map[string]any{"hist": rec.Events()})
